@@ -94,7 +94,12 @@ def sym(name):
 def make_field(desc, wrap_optional=False, wrap_impure=False, wrap_byvalue=False, wrap_meta=False):
     """desc = [sym, [arg names]]; an argument written "~x" is Silent"""
     name, args = desc
-    f = Function(sym(name), *[Silent(a[1:]) if a.startswith('~') else a for a in args])
+    pos = [a for a in args if '=' not in a]
+    kws = dict(a.split('=', 1) for a in args if '=' in a)
+
+    def arg(a):
+        return Silent(a[1:]) if a.startswith('~') else a
+    f = Function(sym(name), *[arg(a) for a in pos], **{k: arg(v) for k, v in kws.items()})
     if wrap_byvalue:
         f = hash_by_value(f)
     if wrap_impure:
